@@ -43,6 +43,13 @@ structure Step where
   phrase : String
   deriving DecidableEq, Repr, Inhabited
 
+/-- the receiver of an event: `KL class` / `KL assigner` (GenerateClassEventNode, CreateClassEventNode),
+    `KL creator`, or an instance handle (VariableAccessNode / SelfAccessNode) -/
+inductive EvtTo where
+  | cls (kl : String)
+  | creator (kl : String)
+  | inst (h : Expr)
+
 mutual
   inductive Stmt where
     | assign (l r : Expr)                                      -- AssignmentNode
@@ -63,6 +70,11 @@ mutual
     | while_ (e : Expr) (b : Block)                            -- WhileNode
     | if_ (e : Expr) (b : Block) (elifs : Elifs) (els : Else)  -- IfNode
     | invoke (e : Expr)                                        -- InvocationStatementNode
+    /-- Generate{Class,Creator,Instance}EventNode(EventSpecNode(identifier, meaning, event_data), receiver) -/
+    | genEvt (label : String) (meaning : Option String) (data : Params) (to : EvtTo)
+    /-- Create{Class,Creator,Instance}EventNode(variable_name, EventSpecNode(…), receiver) -/
+    | createEvt (v : String) (label : String) (meaning : Option String) (data : Params) (to : EvtTo)
+    | genPre (e : Expr)                                        -- GeneratePreexistingNode(variable_access)
   inductive Block where                                        -- BlockNode(StatementListNode)
     | nil
     | cons (s : Stmt) (rest : Block)
@@ -81,6 +93,7 @@ inductive Kw where
   | assign | return_ | break_ | continue_ | control_ | stop | create | object | instance_ | of_ | delete
   | relate | to | across | using_ | unrelate | from_ | select | one | any | many | related | by_ | instances
   | where_ | for_ | each | in_ | while_ | if_ | elif_ | else_ | bridge | transform
+  | generate | event | class_ | creator
   | true_ | false_ | self_ | selected | param | not_ | empty | not_empty | cardinality | and_ | or_
   deriving DecidableEq, Repr, Inhabited
 
